@@ -275,9 +275,7 @@ func (db *Database) SearchUniversal(query string, options SearchOptions) []Searc
 		}
 	}
 
-	if options.Limit <= 0 {
-		options.Limit = 10
-	}
+	options.Limit = db.effectiveLimit(options.Limit, 10)
 
 	// Fold case once, up front: the tokeniser drops non-ASCII characters before it
 	// lower-cases, so a letter such as U+212A KELVIN SIGN (lower case 'k') was lost
